@@ -6,9 +6,10 @@ of an independent reference HMM over the raw graph (refmodel): matched index = l
 that some admissible walk explains, reported probability = the optimum for that prefix, and the
 reported path, re-scored by the reference, is admissible and has the reported probability.
 """
+import logging
 import math
 
-from .. import env  # noqa: F401
+from .. import env
 from .. import gen, build, mcase
 from ..refmodel import RefHMM
 
@@ -32,7 +33,7 @@ ANCHORS = [("leuvenmapmatching/matcher/base.py", "BaseMatching.update"),
            ("leuvenmapmatching/matcher/distance.py", "DistanceMatcher.logprob_trans")]
 FLOORS = {"optimum_comparisons_nontrivial": 500, "early_stops": 50, "no_start_candidate": 30, "dp_vs_bruteforce": 20,
           "family:simple": 300, "family:simple_nodes": 300, "family:distance": 300, "tightened_cases": 300,
-          "paths_rescored_by_reference": 1000, "threshold_hit_exactly": 20, "reused_matcher_cases": 500}
+          "paths_rescored_by_reference": 1000, "threshold_hit_exactly": 20, "reused_matcher_cases": 500, "debug_level_cases": 500}
 ASSUMPTIONS = ["the distance/projection of an observation on a state is taken from the map's own primitive so that threshold decisions are "
                "bit-identical (those primitives are judged by C05/C13); everything else (states, successors, scores, stop rule, DP) is independent",
                "cases in which a normalised probability falls within 1e-9 relative of min_prob_norm (or exactly on it: the reference's own score formula "
@@ -50,6 +51,9 @@ def gen_case(rng, i, tier):
             j = rng.randrange(1, len(pre))
             pre[j] = [pre[j][0] + 9.0, pre[j][1] - 7.0]
         case["pre_trace"] = pre
+    # the optimum does not depend on the log level: a fraction of the cases runs with the package logger at DEBUG, where
+    # candidates that fail a cut-off are kept in the lattice as stopped matchings
+    case["debug"] = rng.random() < 0.15
     return case
 
 
@@ -62,12 +66,17 @@ def run_real(case, fullscan=False):
     if fullscan:
         mcase.patch_fullscan(mp)
     mt = build.make_matcher(mp, case["cfg"])
-    if case.get("pre_trace"):
-        try:
-            mt.match(build.trace(case["pre_trace"]))
-        except Exception:
-            pass
-    res = mt.match(build.trace(case["trace"]))
+    if case.get("debug"):
+        env.logger.setLevel(logging.DEBUG)
+    try:
+        if case.get("pre_trace"):
+            try:
+                mt.match(build.trace(case["pre_trace"]))
+            except Exception:
+                pass
+        res = mt.match(build.trace(case["trace"]))
+    finally:
+        env.logger.setLevel(logging.ERROR)
     return mp, mt, res
 
 
@@ -125,6 +134,8 @@ def check_case(ctx, case):
     ctx.count(f"family:{fam}")
     if case.get("tightened"):
         ctx.count("tightened_cases")
+    if case.get("debug"):
+        ctx.count("debug_level_cases")
     if case.get("pre_trace"):
         ctx.count("reused_matcher_cases")
         if mt.early_stop_idx is not None or True:
